@@ -41,12 +41,20 @@ def draw_knobs(r: random.Random, prop: str, tier: str) -> dict:
     )
 
 
-def draw_io_plan(r: random.Random, knobs: dict, n_raw_calls_hint: int = 8) -> dict:
-    """Per file-op plan: buffer size, short-count schedule seed, optional error fault."""
+def draw_io_plan(r: random.Random, knobs: dict, direction: str = "r", p_error: float = 0.45) -> dict:
+    """Per file-op plan: buffer size, short-count schedule seed, optional error fault.
+    Error faults are placed INSIDE the op: `at` is a fraction of the op's raw calls
+    of that direction, resolved by a dry run at execution time."""
     mode = knobs.get("faults", "off")
     if mode == "off":
         return dict(bufsize=8192, chunks=0, fault=None)
     plan = dict(bufsize=r.choice(BUFSIZES), chunks=r.randrange(1, 1 << 30) if r.random() < 0.8 else 0, fault=None)
+    if mode == "errors" and r.random() < p_error:
+        if direction == "r":
+            plan["fault"] = dict(kind="eio_read", at=round(r.random(), 3))
+        else:
+            k = r.choice(["eio_write", "enospc", "enospc", "close_error"])
+            plan["fault"] = dict(kind=k, at=round(r.random(), 3))
     return plan
 
 
@@ -64,6 +72,9 @@ class IoCtx:
         self.rng = random.Random(ch) if ch else None
         self.fault = plan.get("fault")
         self.raw_calls = 0
+        self.n_reads = 0
+        self.n_writes = 0
+        self.disk_full = False
         self.short_calls = 0
         self.fired = []  # fault kinds that fired
         self.stats = stats
@@ -73,11 +84,24 @@ class IoCtx:
     def _count(self, kind):
         self.stats[kind] = self.stats.get(kind, 0) + 1
 
-    def want_fault(self, kinds) -> str | None:
+    def raw_calls_kind(self, kind: str) -> int:
+        return self.n_reads if kind == "eio_read" else self.n_writes
+
+    def want_fault(self, kinds, index=None) -> str | None:
+        """Does the planned fault fire now?  `index` is the per-direction raw-call
+        index (reads for eio_read, writes for eio_write/enospc); close_error fires at close."""
         f = self.fault
-        if f and f["kind"] in kinds and f.get("raw_call") == self.raw_calls and not self.fired:
+        if not f or f["kind"] not in kinds:
+            return None
+        if f["kind"] == "enospc" and self.disk_full:
+            return "enospc"  # the disk stays full for the rest of the op
+        if self.fired:
+            return None
+        if f["kind"] == "close_error" or f.get("raw_call") == index:
             self.fired.append(f["kind"])
             self._count(f["kind"])
+            if f["kind"] == "enospc":
+                self.disk_full = True
             return f["kind"]
         return None
 
@@ -113,10 +137,12 @@ class SimRaw(io.RawIOBase):
 
     def readinto(self, b):
         ctx = self.fs.ctx
-        if ctx.want_fault(("eio_read",)):
-            ctx.raw_calls += 1
-            raise OSError(errno.EIO, "simulated I/O error on read", self.path)
+        ix = ctx.n_reads
+        ctx.n_reads += 1
         ctx.raw_calls += 1
+        if ctx.want_fault(("eio_read",), ix):
+            ctx.sizes.append(("r", len(b), "EIO"))
+            raise OSError(errno.EIO, "simulated I/O error on read", self.path)
         data = self.fs.files[self.path]
         avail = len(data) - self.pos
         n = min(len(b), max(avail, 0))
@@ -132,13 +158,15 @@ class SimRaw(io.RawIOBase):
     def write(self, b):
         ctx = self.fs.ctx
         b = bytes(b)
-        k = ctx.want_fault(("eio_write", "enospc"))
+        ix = ctx.n_writes
+        ctx.n_writes += 1
         ctx.raw_calls += 1
+        k = ctx.want_fault(("eio_write", "enospc"), ix)
         if k:
-            # a prefix may have reached the device
-            pre = len(b) // 2
-            self._store(b[:pre])
+            # POSIX: a write that made progress returns a short count; an error means no
+            # byte of THIS call reached the device (earlier calls' bytes stay)
             self.fs.tainted.add(self.path)
+            ctx.sizes.append(("w", len(b), k))
             raise OSError(errno.EIO if k == "eio_write" else errno.ENOSPC, f"simulated {k}", self.path)
         n = ctx.short(len(b), "short_write")
         self._store(b[:n])
